@@ -36,7 +36,9 @@ fn flip_case(rng: &mut Rng, s: &str) -> String {
 }
 
 const SPACES: &[&str] = &[" ", "  ", "\t", "\n", "\r\n", " \n ", "\u{a0}", "\u{2003}", "\u{3000}"];
-const COMMENTS: &[&str] = &["-- note", "--", "-- SELECT x FROM y;", "-- it's 'quoted'", "--- dashes ---", "-- \u{e5}\u{1F600}"];
+const COMMENTS: &[&str] = &["-- note", "--", "-- SELECT x FROM y;", "-- it's 'quoted'", "--- dashes ---", "-- \u{e5}\u{1F600}",
+    // a comment whose first character is a quote, a backslash, another dash, a semicolon (commented-out code often starts like that)
+    "--'tis a comment", "--'quoted' => c TEXT ,", "--\"x", "--\\", "--;", "--(", "--::int"];
 
 /// renders the tokens with the requested transformations; returns the text and how many places differ from the base
 fn variant_text(rng: &mut Rng, toks: &[Tok], kinds: &[&str]) -> (String, usize) {
